@@ -111,6 +111,10 @@ func umCorpusExtra() []UCase {
 					Causes: []*UDoc{{Msg: "c1", Kind: order[1], Fields: map[string]int{"n": umValueIndex(val[order[1]])}},
 						{Msg: "c2", Kind: order[0], Fields: map[string]int{"n": umValueIndex(val[order[0]])}}}}})
 		}
+		// a REGISTERED definition with the empty kind beside a default definition: a kind-less node is that
+		// definition's, never the default's
+		out = append(out, UCase{Cfg: UCfg{Defs: []UDef{{Kind: ""}, {Kind: "kd"}}, Reg: []int{0}, Default: &dflt, Strict: strict},
+			Doc: &UDoc{Msg: "m", Kind: "", Causes: []*UDoc{{Msg: "c", Kind: ""}}}})
 		// a composite value that cannot be decoded into the struct type of its key, at the top and in a
 		// cause, with and without a default definition: ErrInternal from the whole call, never a degraded cause
 		for _, withDefault := range []bool{false, true} {
